@@ -70,7 +70,7 @@ Definition r_accept_one (s : rstate) (oe : roevent) : rstate + Z :=
         if negb (Nat.eqb (w_pool (watcher_of s1 id)) o) then inr 25
         else
           let s2 := r_step s1 (Compare id true) in
-          if Nat.eqb (created s2) (S (created s1)) then inl s2 else inr 26
+          if Nat.eqb (created s2) (S (created s1)) then inl (r_step s2 (Store id)) else inr 26
   | OHREvent i e ok => if r_enabled s (HREvent i e ok) then inl (r_step s (HREvent i e ok)) else inr 20
   | OHRTick => if r_enabled s HRTick then inl (r_step s HRTick) else inr 20
   | OHRTimeout => if r_enabled s HRTimeout then inl (r_step s HRTimeout) else inr 20
@@ -119,9 +119,12 @@ Fixpoint r_accept_from (pos : nat) (s : rstate) (h : list (roevent * option robs
       end
   end.
 
-Record rcase := { rc_n : nat; rc_hist : list (roevent * option robs) }.
+(* rc_early: what the harness read from the source of background(): false = the identity check stands after
+   the timer receive, in the Lock region of the dial (the shape the theorems are about) *)
+Record rcase := { rc_n : nat; rc_early : bool; rc_hist : list (roevent * option robs) }.
+Definition rc_init (c : rcase) : rstate := r_init_gen close_prog (rc_early c) (rc_n c).
 
-Definition r_accepts (c : rcase) : option (nat * Z) := r_accept_from 0 (settle (r_init (rc_n c))) (rc_hist c).
+Definition r_accepts (c : rcase) : option (nat * Z) := r_accept_from 0 (settle (rc_init c)) (rc_hist c).
 
 Fixpoint r_mismatches_from (k : nat) (cs : list rcase) : list (nat * nat * Z) :=
   match cs with
@@ -140,4 +143,4 @@ Fixpoint r_final (s : rstate) (h : list (roevent * option robs)) : rstate :=
   | (oe, _) :: r => match r_accept_one s oe with inl s1 => r_final (settle s1) r | inr _ => s end
   end.
 Definition r_counters (c : rcase) : nat * nat :=
-  let s := r_final (settle (r_init (rc_n c))) (rc_hist c) in (created s, bad s).
+  let s := r_final (settle (rc_init c)) (rc_hist c) in (created s, bad s).
